@@ -6,7 +6,7 @@ from pyparsing import *
 def _grammar():
   from pyparsing import pyparsing_common
   # Integers, reals and reals in scientific notation as accepted by pyparsing_common.number, with two provisos:
-  # a number ends where its text ends ('1.2.3' is not the two numbers 1.2 and .3) and a literal that
+  # a number ends where its text ends ('1.2.3' is not the two numbers 1.2 and .3, '0.3-32.0' not 0.3 and -32.0) and a literal that
   # overflows to infinity (1e999, or an integer of 400 digits) is not a number a potential can be parametrised with.
   # Digits are the ASCII digits ('\d' would also match those of other scripts, which float() converts).
   def convert(tokens):
@@ -20,7 +20,7 @@ def _grammar():
     if out_of_range:
       raise ParseException("number out of range: {}".format(text))
     return value
-  number = Regex(r"[+-]?(?:[0-9]+\.[0-9]*|\.[0-9]+|[0-9]+)(?:[eE][+-]?[0-9]+)?(?![.0-9])").setParseAction(convert)
+  number = Regex(r"[+-]?(?:[0-9]+\.[0-9]*|\.[0-9]+|[0-9]+)(?:[eE][+-]?[0-9]+)?(?![.0-9])(?![+-][.0-9])").setParseAction(convert)
   identifier = Combine(pyparsing_common.identifier+ZeroOrMore(Literal(".")+pyparsing_common.identifier))
 
   # multi_range
